@@ -192,8 +192,12 @@ package document
 // than io.EOF, the decoder model does not know that): the clauses below cover both, the position of the last child counted is
 // xmlPos() - 1 in the first case and xmlPos() in the second
 //@ ensures result == nil && plainT(old(xmlPos())) ==> xmlDepth(xmlPos()) >= old(xmlDepth(xmlPos())) - 1
+//@ ensures result == nil && plainT(old(xmlPos())) ==> xmlDepth(xmlPos()) == old(xmlDepth(xmlPos())) - 1 || xmlDepth(xmlPos()) == old(xmlDepth(xmlPos()))
 //@ ensures result == nil && plainT(old(xmlPos())) && xmlDepth(xmlPos()) < old(xmlDepth(xmlPos())) ==> xmlPos() > old(xmlPos()) && tokIsEnd(xmlPos() - 1) && xmlOpen(xmlPos() - 1) == old(xmlPos()) - 1
 //@ ensures result == nil && plainT(old(xmlPos())) ==> forall k int :: {xmlDepth(k)} old(xmlPos()) <= k && k < xmlPos() ==> xmlDepth(k) >= old(xmlDepth(xmlPos()))
+// the end tag of the w:body element, if it has been delivered at all, is the last token consumed
+//@ ensures result == nil && plainT(old(xmlPos())) ==> forall e int :: {xmlOpen(e)} bodyEnd(old(xmlPos()) - 1, e) ==> ite(xmlDepth(xmlPos()) < old(xmlDepth(xmlPos())), e == xmlPos() - 1, e >= xmlPos())
+//@ ensures result == nil && plainT(old(xmlPos())) ==> xmlDepth(xmlPos()) < old(xmlDepth(xmlPos())) || xmlRem() == 0   // the io.EOF exit: the decoder delivers nothing any more
 //@ ensures result == nil && plainT(old(xmlPos())) && noParaSect(old(xmlPos())) ==> d.Body == old(d.Body)
 //@ ensures result == nil && plainT(old(xmlPos())) && noParaSect(old(xmlPos())) ==> forall j int :: 0 <= j && j < old(len(d.Body.Elements)) ==> d.Body.Elements[j] == old(d.Body.Elements[j])
 //@ ensures result == nil && plainT(old(xmlPos())) && noParaSect(old(xmlPos())) ==> len(d.Body.Elements) == old(len(d.Body.Elements)) + bodyCnt(old(xmlPos()), ite(xmlDepth(xmlPos()) < old(xmlDepth(xmlPos())), xmlPos() - 1, xmlPos()))
@@ -205,9 +209,55 @@ package document
 //@   invariant xmlPos() >= old(xmlPos())
 //@   invariant plainT(old(xmlPos())) ==> xmlDepth(xmlPos()) == old(xmlDepth(xmlPos()))
 //@   invariant plainT(old(xmlPos())) ==> forall k int :: {xmlDepth(k)} old(xmlPos()) <= k && k < xmlPos() ==> xmlDepth(k) >= old(xmlDepth(xmlPos()))
+//@   invariant plainT(old(xmlPos())) ==> forall e int :: {xmlOpen(e)} bodyEnd(old(xmlPos()) - 1, e) ==> e >= xmlPos()
 //@   invariant plainT(old(xmlPos())) && noParaSect(old(xmlPos())) ==> d.Body == old(d.Body)
 //@   invariant plainT(old(xmlPos())) && noParaSect(old(xmlPos())) ==> bodyCnt(old(xmlPos()), xmlPos()) >= 0
 //@   invariant plainT(old(xmlPos())) && noParaSect(old(xmlPos())) ==> len(d.Body.Elements) == old(len(d.Body.Elements)) + bodyCnt(old(xmlPos()), xmlPos())
 //@   invariant plainT(old(xmlPos())) && noParaSect(old(xmlPos())) ==> forall j int :: 0 <= j && j < old(len(d.Body.Elements)) ==> d.Body.Elements[j] == old(d.Body.Elements[j])
 //@   invariant plainT(old(xmlPos())) && noParaSect(old(xmlPos())) ==> forall e int :: {xmlOpen(e)} e < xmlPos() && bodyKidEnd(old(xmlPos()), e, old(xmlDepth(xmlPos()))) ==> 0 <= bodyCnt(old(xmlPos()), xmlOpen(e)) && old(len(d.Body.Elements)) + bodyCnt(old(xmlPos()), xmlOpen(e)) < len(d.Body.Elements) && elemKind(d.Body.Elements[old(len(d.Body.Elements)) + bodyCnt(old(xmlPos()), xmlOpen(e))], xmlOpen(e))
+//@   decreases xmlRem()
+
+
+// The document level. parseDocumentElement (called right behind the <w:document> start tag) creates the body object and hands
+// every start tag named "body" to parseBodyElement; parseDocument looks for the first WordprocessingML document start tag.
+// Stated for token sequences with exactly ONE start tag named body behind the entry position (oneBody; a second one - which no
+// producer writes - would be appended to the same list, and a body nested in an unknown child of w:document is parsed as well,
+// because children of w:document other than body are not skipped but walked through): after a successful parse the element
+// list has exactly one entry per recognised direct child of that w:body element, of the matching kind, in document order.
+//@ spec oneBody(p0 int, b int) bool = p0 <= b && tokIsStart(b) && tokLocal(b) == "body" && (forall s int :: {xmlTok(s)} p0 <= s && s != b ==> !(tokIsStart(s) && tokLocal(s) == "body"))
+//@ spec bodyEnd(b int, e int) bool = e >= 0 && tokIsEnd(e) && xmlOpen(e) == b
+//@ spec isDocStart(s int) bool = tokIsStart(s) && tokLocal(s) == "document" && tokSpace(s) == "http://schemas.openxmlformats.org/wordprocessingml/2006/main"
+//@ spec firstDoc(p0 int, t int) bool = p0 <= t && isDocStart(t) && (forall s int :: {xmlTok(s)} p0 <= s && s < t ==> !isDocStart(s))
+//@ func (*Document).parseDocumentElement
+//@ props C06, C03, C04
+//@ requires d != nil && decoder != nil
+//@ ensures d.Body != nil && elemsOK(d.Body.Elements)
+//@ ensures xmlRem() <= old(xmlRem())
+//@ ensures old(d.Body) != nil ==> d.Body != nil
+//@ ensures old(d.Body) != nil && old(elemsOK(d.Body.Elements)) ==> elemsOK(d.Body.Elements)
+//@ ensures xmlPos() >= old(xmlPos())
+//@ ensures result == nil && plainT(old(xmlPos())) && noParaSect(old(xmlPos())) ==> forall b int, e int :: {xmlOpen(e), xmlTok(b)} oneBody(old(xmlPos()), b) && bodyEnd(b, e) && e < xmlPos() ==> len(d.Body.Elements) == bodyCnt(b + 1, e)
+//@ ensures result == nil && plainT(old(xmlPos())) && noParaSect(old(xmlPos())) ==> forall b int, e int, c int :: {xmlOpen(e), xmlTok(b), xmlOpen(c)} oneBody(old(xmlPos()), b) && bodyEnd(b, e) && e < xmlPos() && c < e && bodyKidEnd(b + 1, c, xmlDepth(b + 1)) ==> 0 <= bodyCnt(b + 1, xmlOpen(c)) && bodyCnt(b + 1, xmlOpen(c)) < len(d.Body.Elements) && elemKind(d.Body.Elements[bodyCnt(b + 1, xmlOpen(c))], xmlOpen(c))
+//@ loop 1
+//@   invariant d.Body != nil && elemsOK(d.Body.Elements)
+//@   invariant xmlRem() <= old(xmlRem())
+//@   invariant old(d.Body) != nil ==> d.Body != nil
+//@   invariant xmlPos() >= old(xmlPos())
+//@   invariant plainT(old(xmlPos())) && noParaSect(old(xmlPos())) ==> forall b int :: {xmlTok(b)} oneBody(old(xmlPos()), b) && xmlPos() <= b ==> len(d.Body.Elements) == 0
+//@   invariant plainT(old(xmlPos())) && noParaSect(old(xmlPos())) ==> forall b int, e int :: {xmlOpen(e), xmlTok(b)} oneBody(old(xmlPos()), b) && bodyEnd(b, e) && e < xmlPos() ==> len(d.Body.Elements) == bodyCnt(b + 1, e)
+//@   invariant plainT(old(xmlPos())) && noParaSect(old(xmlPos())) ==> forall b int, e int :: {xmlOpen(e), xmlTok(b)} oneBody(old(xmlPos()), b) && b < xmlPos() && bodyEnd(b, e) ==> e < xmlPos() || xmlRem() == 0
+//@   invariant plainT(old(xmlPos())) && noParaSect(old(xmlPos())) ==> forall b int, e int, c int :: {xmlOpen(e), xmlTok(b), xmlOpen(c)} oneBody(old(xmlPos()), b) && bodyEnd(b, e) && e < xmlPos() && c < e && bodyKidEnd(b + 1, c, xmlDepth(b + 1)) ==> 0 <= bodyCnt(b + 1, xmlOpen(c)) && bodyCnt(b + 1, xmlOpen(c)) < len(d.Body.Elements) && elemKind(d.Body.Elements[bodyCnt(b + 1, xmlOpen(c))], xmlOpen(c))
+//@   decreases xmlRem()
+
+//@ func (*Document).parseDocument
+//@ props C06, C03, C04
+//@ requires d != nil && d.Body == nil
+//@ ensures result == nil ==> d.Body != nil && elemsOK(d.Body.Elements)
+//@ ensures xmlPos() >= old(xmlPos())
+//@ ensures result == nil && plainT(old(xmlPos())) && noParaSect(old(xmlPos())) ==> forall t int, b int, e int :: {xmlTok(t), xmlOpen(e), xmlTok(b)} firstDoc(old(xmlPos()), t) && oneBody(t + 1, b) && bodyEnd(b, e) && e < xmlPos() ==> len(d.Body.Elements) == bodyCnt(b + 1, e)
+//@ ensures result == nil && plainT(old(xmlPos())) && noParaSect(old(xmlPos())) ==> forall t int, b int, e int, c int :: {xmlTok(t), xmlOpen(e), xmlTok(b), xmlOpen(c)} firstDoc(old(xmlPos()), t) && oneBody(t + 1, b) && bodyEnd(b, e) && e < xmlPos() && c < e && bodyKidEnd(b + 1, c, xmlDepth(b + 1)) ==> 0 <= bodyCnt(b + 1, xmlOpen(c)) && bodyCnt(b + 1, xmlOpen(c)) < len(d.Body.Elements) && elemKind(d.Body.Elements[bodyCnt(b + 1, xmlOpen(c))], xmlOpen(c))
+//@ loop 1
+//@   invariant d.Body == nil
+//@   invariant xmlPos() >= old(xmlPos())
+//@   invariant forall s int :: {xmlTok(s)} old(xmlPos()) <= s && s < xmlPos() ==> !isDocStart(s)
 //@   decreases xmlRem()
